@@ -698,4 +698,328 @@ theorem single_group_phases_extend (h : FarExtension p env env' atoms atoms' gro
   rw [h.gget_eq t ht, hvol, buriedOf_extend h _ _ hnv t ht]
 end
 
+/-! ### the pair loop of the extended system, and everything before the iterative scheme -/
+theorem any_congr_mem {β : Type} (l : List β) (f g : β → Bool) (h : ∀ x ∈ l, f x = g x) : l.any f = l.any g := by
+  induction l with
+  | nil => rfl
+  | cons x xs ih =>
+    simp only [List.any_cons]
+    rw [h x (by simp), ih (fun y hy => h y (List.mem_cons_of_mem _ hy))]
+
+section
+variable {p : SP ℝ} {env env' : Env ℝ} {atoms atoms' : Tab AtomT} {groups groups' : Tab (GroupT ℝ)} {R : ℝ}
+
+theorem withinBonds_extend (h : FarExtension p env env' atoms atoms' groups groups' R) (other : Nat) (fuel : Nat) (a : Nat) (ha : a < atoms.n) :
+    withinBonds atoms' other fuel a = withinBonds atoms other fuel a := by
+  induction fuel generalizing a with
+  | zero => rfl
+  | succ n ih =>
+    unfold withinBonds
+    rw [h.aget_eq a ha]
+    apply any_congr_mem
+    intro b hb
+    rw [ih b (h.bondedIn a ha b hb)]
+
+theorem scAngle_extend (h : FarExtension p env env' atoms atoms' groups groups' R) (g1 g2 : GroupT ℝ) (r : Best ℝ)
+    (ha : r.a < atoms.n) (hb : r.b < atoms.n) :
+    scAngle p env' atoms' g1 g2 r = scAngle p env atoms g1 g2 r := by
+  unfold scAngle
+  rw [h.aget_eq r.a ha, h.aget_eq r.b hb, (h.bond0_in r.a ha).1, (h.bond0_in r.b hb).1,
+    h.envAngA _ _ _ ha hb (h.bond0_in r.b hb).2, h.envAngA _ _ _ hb ha (h.bond0_in r.a ha).2]
+
+theorem erase_sub (l : List Nat) (x : Nat) (P : Nat → Prop) (hl : ∀ a ∈ l, P a) : ∀ a ∈ l.erase x, P a :=
+  fun a ha => hl a (List.mem_of_mem_erase ha)
+
+theorem cooArgRound_extend (h : FarExtension p env env' atoms atoms' groups groups' R) (ang : Bool) (st : ℝ × List Nat × List Nat)
+    (h1 : ∀ a ∈ st.2.1, a < atoms.n) (h2 : ∀ a ∈ st.2.2, a < atoms.n) :
+    cooArgRound p env' atoms' ang st = cooArgRound p env atoms ang st ∧
+    (∀ a ∈ (cooArgRound p env atoms ang st).2.1, a < atoms.n) ∧ (∀ a ∈ (cooArgRound p env atoms ang st).2.2, a < atoms.n) := by
+  unfold cooArgRound
+  rw [smallest_congr env.sqAA env'.sqAA st.2.1 st.2.2 (fun x hx y hy => h.envAA x y (h1 x hx) (h2 y hy))]
+  split
+  · exact ⟨rfl, h1, h2⟩
+  · rename_i r hr
+    obtain ⟨hra, hrb⟩ := smallest_mem _ _ _ r hr
+    have ha := h1 r.a hra
+    have hb := h2 r.b hrb
+    simp only
+    rw [h.aget_eq r.a ha, h.aget_eq r.b hb, (h.bond0_in r.b hb).1, h.envAngA _ _ _ ha hb (h.bond0_in r.b hb).2]
+    exact ⟨rfl, erase_sub _ _ _ h1, erase_sub _ _ _ h2⟩
+
+theorem cooArg_extend (h : FarExtension p env env' atoms atoms' groups groups' R) (c a : Nat) (hc : c < groups.n) (ha : a < groups.n) :
+    cooArg p env' atoms' (gget groups c) (gget groups a) = cooArg p env atoms (gget groups c) (gget groups a) := by
+  unfold cooArg
+  simp only
+  obtain ⟨e1, i1, i2⟩ := cooArgRound_extend h (p.angular (gget groups a).type)
+    (zero, interAtoms p (gget groups c) (gget groups a), interAtoms p (gget groups a) (gget groups c))
+    (h.interAtoms_in c hc _) (h.interAtoms_in a ha _)
+  rw [e1]
+  rw [(cooArgRound_extend h _ _ i1 i2).1]
+
+theorem cooCoo_extend (h : FarExtension p env env' atoms atoms' groups groups' R) (a b : Nat) (ha : a < groups.n) (hb : b < groups.n) (n1 n2 : ℝ) :
+    cooCoo p env' atoms' (gget groups a) (gget groups b) n1 n2 = cooCoo p env atoms (gget groups a) (gget groups b) n1 n2 := by
+  unfold cooCoo
+  rw [smallest_congr env.sqAA env'.sqAA _ _ (fun x hx y hy => h.envAA x y (h.interAtoms_in a ha _ x hx) (h.interAtoms_in b hb _ y hy))]
+  split
+  · rfl
+  · rename_i r hr
+    obtain ⟨hra, hrb⟩ := smallest_mem _ _ _ r hr
+    simp only
+    rw [h.aget_eq r.a (h.interAtoms_in a ha _ r.a hra), h.aget_eq r.b (h.interAtoms_in b hb _ r.b hrb)]
+
+theorem exceptionValue_extend (h : FarExtension p env env' atoms atoms' groups groups' R) (a b : Nat) (ha : a < groups.n) (hb : b < groups.n) (n1 n2 : ℝ) :
+    exceptionValue p env' atoms' (gget groups a) (gget groups b) n1 n2 = exceptionValue p env atoms (gget groups a) (gget groups b) n1 n2 := by
+  unfold exceptionValue
+  simp only
+  rw [cooArg_extend h a b ha hb, cooArg_extend h b a hb ha, cooCoo_extend h a b ha hb]
+
+theorem hbVal_extend (h : FarExtension p env env' atoms atoms' groups groups' R) (a b : Nat) (ha : a < groups.n) (hb : b < groups.n) (n1 n2 : ℝ) :
+    hbVal p env' atoms' (gget groups a) (gget groups b) n1 n2 = hbVal p env atoms (gget groups a) (gget groups b) n1 n2 := by
+  unfold hbVal
+  rw [smallest_congr env.sqAA env'.sqAA _ _ (fun x hx y hy => h.envAA x y (h.interAtoms_in a ha _ x hx) (h.interAtoms_in b hb _ y hy))]
+  split
+  · rfl
+  · rename_i r hr
+    obtain ⟨hra, hrb⟩ := smallest_mem _ _ _ r hr
+    have h1 := h.interAtoms_in a ha _ r.a hra
+    have h2 := h.interAtoms_in b hb _ r.b hrb
+    simp only
+    have hat : (gget groups a).atom < atoms.n := h.atomIn a ha
+    rw [h.aget_eq r.a h1, h.aget_eq r.b h2, withinBonds_extend h _ _ _ hat, scAngle_extend h _ _ r h1 h2,
+      exceptionValue_extend h a b ha hb]
+
+/-- a pair of old groups is treated in the extended system exactly as in the old one -/
+theorem pairStep_extend (h : FarExtension p env env' atoms atoms' groups groups' R) (nv nv' : Nat → ℝ)
+    (hnv : ∀ g, g < groups.n → nv' g = nv g) (ab : Nat × Nat) (ha : ab.1 < groups.n) (hb : ab.2 < groups.n) :
+    pairStep p env' atoms' groups' nv' ab = pairStep p env atoms groups nv ab := by
+  unfold pairStep
+  simp only
+  rw [h.gget_eq ab.1 ha, h.gget_eq ab.2 hb, h.envGG ab.1 ab.2 ha hb, hnv ab.1 ha, hnv ab.2 hb, hbVal_extend h ab.1 ab.2 ha hb]
+
+theorem flatMap_congr_mem {β γ : Type} (l : List β) (f g : β → List γ) (h : ∀ a ∈ l, f a = g a) : l.flatMap f = l.flatMap g := by
+  induction l with
+  | nil => rfl
+  | cons a as ih =>
+    simp only [List.flatMap_cons]
+    rw [h a (by simp), ih (fun b hb => h b (List.mem_cons_of_mem _ hb))]
+
+theorem innerPairs_prefix (G : Tab (GroupT ℝ)) (a : Nat) (l1 l2 : List Nat) (ha : a ∈ l1) :
+    innerPairs G a (l1 ++ l2) = innerPairs G a l1 := by
+  induction l1 with
+  | nil => exact absurd ha (by simp)
+  | cons b l ih =>
+    simp only [List.cons_append, innerPairs]
+    split
+    · rfl
+    · rename_i hc
+      have hne : b ≠ a := by
+        intro e; apply hc; simp [e]
+      have : a ∈ l := by
+        rcases List.mem_cons.mp ha with e | e
+        · exact absurd e.symm hne
+        · exact e
+      rw [ih this]
+
+theorem innerPairs_congr (G G' : Tab (GroupT ℝ)) (a : Nat) (l : List Nat) (hc : (gget G' a).cov = (gget G a).cov) :
+    innerPairs G' a l = innerPairs G a l := by
+  induction l with
+  | nil => rfl
+  | cons b l ih => simp only [innerPairs, hc, ih]
+
+theorem innerPairs_mem (G : Tab (GroupT ℝ)) (a : Nat) (l : List Nat) (ab : Nat × Nat) (h : ab ∈ innerPairs G a l) : ab.1 = a ∧ ab.2 ∈ l := by
+  induction l with
+  | nil => exact absurd h (by simp [innerPairs])
+  | cons b l ih =>
+    simp only [innerPairs] at h
+    split at h
+    · exact absurd h (by simp)
+    · rcases List.mem_cons.mp h with e | e
+      · rw [e]; exact ⟨rfl, by simp⟩
+      · exact ⟨(ih e).1, List.mem_cons_of_mem _ (ih e).2⟩
+
+/-- the pairs the loop visits in the extended system: those of the old system, then pairs whose first member is new -/
+theorem visited_extend (h : FarExtension p env env' atoms atoms' groups groups' R) :
+    ∃ extra, visited groups' = visited groups ++ extra ∧ (∀ ab ∈ extra, groups.n ≤ ab.1) ∧
+      (∀ ab ∈ visited groups, ab.1 < groups.n ∧ ab.2 < groups.n) := by
+  obtain ⟨k, hk⟩ := Nat.exists_eq_add_of_le h.ng
+  have hsc : sidechainGroups groups' = sidechainGroups groups ++
+      (List.filter (fun i => !hasBB (gget groups' i).type && !(gget groups' i).bridged) (List.map (fun x => groups.n + x) (List.range k))) := by
+    unfold sidechainGroups
+    rw [hk, filter_range_extend (β := Nat) groups.n k (fun i => !hasBB (gget groups i).type && !(gget groups i).bridged)
+      (fun i => !hasBB (gget groups' i).type && !(gget groups' i).bridged) (fun i hi => by rw [h.gget_eq i hi])]
+  have hold : ∀ x ∈ sidechainGroups groups, x < groups.n := by
+    intro x hx; unfold sidechainGroups at hx; exact List.mem_range.mp (List.mem_filter.mp hx).1
+  refine ⟨(List.filter (fun i => !hasBB (gget groups' i).type && !(gget groups' i).bridged) (List.map (fun x => groups.n + x) (List.range k))).flatMap
+      (fun a => innerPairs groups' a (sidechainGroups groups')), ?_, ?_, ?_⟩
+  · unfold visited
+    rw [hsc, List.flatMap_append]
+    congr 1
+    apply flatMap_congr_mem
+    intro a ha
+    rw [innerPairs_prefix groups' a _ _ ha, innerPairs_congr groups groups' a _ (by rw [h.gget_eq a (hold a ha)])]
+  · intro ab hab
+    obtain ⟨a, ha, hm⟩ := List.mem_flatMap.mp hab
+    rw [(innerPairs_mem _ _ _ _ hm).1]
+    obtain ⟨j, _, rfl⟩ := List.mem_map.mp (List.mem_filter.mp ha).1
+    exact Nat.le_add_right _ _
+  · intro ab hab
+    unfold visited at hab
+    obtain ⟨a, ha, hm⟩ := List.mem_flatMap.mp hab
+    obtain ⟨e1, e2⟩ := innerPairs_mem _ _ _ _ hm
+    exact ⟨by rw [e1]; exact hold a ha, hold _ e2⟩
+
+theorem tagOut_owner (a b : Nat) (k : Kind) (o : Out ℝ) (e : Em ℝ) (h : e ∈ tagOut a b k o) : e.owner = a ∨ e.owner = b := by
+  unfold tagOut at h
+  obtain ⟨r, _, rfl⟩ := List.mem_map.mp h
+  split
+  · exact Or.inl rfl
+  · exact Or.inr rfl
+
+theorem pairStep_owner (p : SP ℝ) (env : Env ℝ) (atoms : Tab AtomT) (groups : Tab (GroupT ℝ)) (nv : Nat → ℝ) (ab : Nat × Nat) :
+    (∀ e ∈ (pairStep p env atoms groups nv ab).ems, e.owner = ab.1 ∨ e.owner = ab.2) ∧
+    (∀ it, (pairStep p env atoms groups nv ab).inter = some it → it.g1 = ab.1 ∧ it.g2 = ab.2) := by
+  unfold pairStep
+  simp only
+  split
+  · split
+    · split
+      · exact ⟨fun e he => absurd he (by simp), fun it hit => by have := Option.some.inj hit; subst this; exact ⟨rfl, rfl⟩⟩
+      · exact ⟨fun e he => absurd he (by simp), fun it hit => absurd hit (by simp)⟩
+    · refine ⟨?_, fun it hit => absurd hit (by simp)⟩
+      intro e he
+      simp only [List.mem_append] at he
+      rcases he with h1 | h2
+      · split at h1
+        · split at h1
+          · exact tagOut_owner _ _ _ _ _ h1
+          · exact absurd h1 (by simp)
+        · exact absurd h1 (by simp)
+      · split at h2
+        · split at h2
+          · exact tagOut_owner _ _ _ _ _ h2
+          · exact absurd h2 (by simp)
+        · exact absurd h2 (by simp)
+    · exact ⟨fun e he => absurd he (by simp), fun it hit => absurd hit (by simp)⟩
+  · exact ⟨fun e he => absurd he (by simp), fun it hit => absurd hit (by simp)⟩
+
+theorem emsOf_append (l1 l2 : List (Em ℝ)) (g : Nat) (k : Kind) : emsOf (l1 ++ l2) g k = emsOf l1 g k ++ emsOf l2 g k := by
+  unfold emsOf; rw [List.filter_append, List.map_append]
+
+theorem emsOf_nil_of_owner (l : List (Em ℝ)) (g : Nat) (k : Kind) (n : Nat) (hg : g < n) (h : ∀ e ∈ l, n ≤ e.owner) : emsOf l g k = [] := by
+  unfold emsOf
+  rw [List.map_eq_nil_iff, List.filter_eq_nil_iff]
+  intro e he
+  have := h e he
+  simp only [Bool.and_eq_true, beq_iff_eq, not_and]
+  intro ho; omega
+
+/-- what a pair with a new first member does: nothing that reaches an old group -/
+theorem pairStep_new (h : FarExtension p env env' atoms atoms' groups groups' R) (hcc : p.ep.cc2 ≤ R) (nv' : Nat → ℝ) (ab : Nat × Nat)
+    (hge : groups.n ≤ ab.1) :
+    (∀ e ∈ (pairStep p env' atoms' groups' nv' ab).ems, groups.n ≤ e.owner) ∧
+    (∀ it, (pairStep p env' atoms' groups' nv' ab).inter = some it → groups.n ≤ it.g1 ∧ groups.n ≤ it.g2) := by
+  by_cases hb : ab.2 < groups.n
+  · have hfar : p.ep.cc2 ≤ Real.sqrt (env'.sqGG ab.1 ab.2) := by
+      refine le_trans hcc ?_
+      rw [show R = Real.sqrt (R * R) from (Real.sqrt_mul_self h.rpos).symm]
+      exact Real.sqrt_le_sqrt (h.farGG ab.2 ab.1 hb hge).2
+    obtain ⟨e1, e2⟩ := pairStep_far p env' atoms' groups' nv' ab hfar
+    rw [e1, e2]
+    exact ⟨fun e he => absurd he (by simp), fun it hit => absurd hit (by simp)⟩
+  · obtain ⟨o1, o2⟩ := pairStep_owner p env' atoms' groups' nv' ab
+    refine ⟨?_, ?_⟩
+    · intro e he
+      rcases o1 e he with r | r <;> rw [r]
+      · exact hge
+      · exact Nat.le_of_not_lt hb
+    · intro it hit
+      obtain ⟨r1, r2⟩ := o2 it hit
+      rw [r1, r2]; exact ⟨hge, Nat.le_of_not_lt hb⟩
+
+/-- **The pair loop of the extended system**: the non-iterative determinants of every old group are those of the old system,
+    and the list handed to the iterative scheme is the old list followed by interactions among new groups only. -/
+theorem pair_loop_extend (h : FarExtension p env env' atoms atoms' groups groups' R) (hcc : p.ep.cc2 ≤ R) (nv nv' : Nat → Nat)
+    (hnv : ∀ g, g < groups.n → nv' g = nv g) :
+    (∀ g, g < groups.n → ∀ k, emsOf (nonIterEms (pairResults p env' atoms' groups' nv')) g k = emsOf (nonIterEms (pairResults p env atoms groups nv)) g k) ∧
+    (∃ extra, iterInters (pairResults p env' atoms' groups' nv') = iterInters (pairResults p env atoms groups nv) ++ extra ∧
+      (∀ it ∈ extra, groups.n ≤ it.g1 ∧ groups.n ≤ it.g2)) ∧
+    (∀ it ∈ iterInters (pairResults p env atoms groups nv), it.g1 < groups.n ∧ it.g2 < groups.n) := by
+  obtain ⟨extra, hv, hnew, hold⟩ := visited_extend h
+  have hrs : pairResults p env' atoms' groups' nv' = pairResults p env atoms groups nv ++
+      extra.map (pairStep p env' atoms' groups' fun g => ((nv' g : ℕ) : ℝ)) := by
+    unfold pairResults
+    rw [hv, List.map_append]
+    congr 1
+    apply List.map_congr_left
+    intro ab hab
+    exact pairStep_extend h _ _ (fun g hg => by rw [hnv g hg]) ab (hold ab hab).1 (hold ab hab).2
+  refine ⟨?_, ⟨(extra.map (pairStep p env' atoms' groups' fun g => ((nv' g : ℕ) : ℝ))).filterMap (·.inter), ?_, ?_⟩, ?_⟩
+  · intro g hg k
+    rw [hrs]
+    unfold nonIterEms
+    rw [List.flatMap_append, emsOf_append]
+    have hnil : emsOf (List.flatMap (fun x => x.ems) (List.map (pairStep p env' atoms' groups' fun g => ((nv' g : ℕ) : ℝ)) extra)) g k = [] := by
+      apply emsOf_nil_of_owner _ g k groups.n hg
+      intro e he
+      obtain ⟨r, hr, her⟩ := List.mem_flatMap.mp he
+      obtain ⟨ab, hab, rfl⟩ := List.mem_map.mp hr
+      exact (pairStep_new h hcc _ ab (hnew ab hab)).1 e her
+    rw [hnil, List.append_nil]
+  · rw [hrs]; unfold iterInters; rw [List.filterMap_append]
+  · intro it hit
+    obtain ⟨r, hr, hri⟩ := List.mem_filterMap.mp hit
+    obtain ⟨ab, hab, rfl⟩ := List.mem_map.mp hr
+    exact (pairStep_new h hcc _ ab (hnew ab hab)).2 it hri
+  · intro it hit
+    unfold iterInters pairResults at hit
+    obtain ⟨r, hr, hri⟩ := List.mem_filterMap.mp hit
+    obtain ⟨ab, hab, rfl⟩ := List.mem_map.mp hr
+    obtain ⟨r1, r2⟩ := (pairStep_owner p env atoms groups _ ab).2 it hri
+    rw [r1, r2]; exact hold ab hab
+
+theorem desTab_extend (h : FarExtension p env env' atoms atoms' groups groups' R) (g : Nat) (hg : g < groups.n) :
+    nvF (desTab p env' atoms' groups') g = nvF (desTab p env atoms groups) g ∧
+    volF (desTab p env' atoms' groups') g = volF (desTab p env atoms groups) g := by
+  have htab : tab (desTab p env' atoms' groups') (zero, 0) g = tab (desTab p env atoms groups) (zero, 0) g := by
+    unfold desTab
+    rw [tab_map_range _ _ _ _ hg, tab_map_range _ _ _ _ (Nat.lt_of_lt_of_le hg h.ng)]
+    unfold desolvOf
+    rw [h.gget_eq g hg, desolv_extend p env env' atoms atoms' groups groups' R h g hg]
+  unfold nvF volF
+  rw [htab]; exact ⟨rfl, rfl⟩
+
+/-- **Everything `calculate_pka` does before the iterative scheme is local.**  In a system extended by a part beyond range,
+    the record of every old group after the non-iterative section - buried count and fraction, both desolvation terms, backbone,
+    ion, non-iterative side-chain and Coulomb determinants - is the record it has in the old system alone, and the list of
+    interactions handed to the iterative scheme is the old list followed by interactions among new groups only (so the old
+    groups form a closed sub-system of the solver, to which `iterate_componentwise` applies). -/
+theorem before_iterative_extend (h : FarExtension p env env' atoms atoms' groups groups' R) (hcc : p.ep.cc2 ≤ R) :
+    (∀ g, g < groups.n →
+      stage1 p env' atoms' groups' (volF (desTab p env' atoms' groups')) (nvF (desTab p env' atoms' groups'))
+          (nonIterEms (pairResults p env' atoms' groups' (nvF (desTab p env' atoms' groups')))) g
+        = stage1 p env atoms groups (volF (desTab p env atoms groups)) (nvF (desTab p env atoms groups))
+          (nonIterEms (pairResults p env atoms groups (nvF (desTab p env atoms groups)))) g) ∧
+    (∃ extra, iterInters (pairResults p env' atoms' groups' (nvF (desTab p env' atoms' groups')))
+        = iterInters (pairResults p env atoms groups (nvF (desTab p env atoms groups))) ++ extra ∧
+      (∀ it ∈ extra, groups.n ≤ it.g1 ∧ groups.n ≤ it.g2)) ∧
+    (∀ it ∈ iterInters (pairResults p env atoms groups (nvF (desTab p env atoms groups))), it.g1 < groups.n ∧ it.g2 < groups.n) := by
+  have hnv : ∀ g, g < groups.n → nvF (desTab p env' atoms' groups') g = nvF (desTab p env atoms groups) g :=
+    fun g hg => (desTab_extend h g hg).1
+  obtain ⟨hems, hint, hold⟩ := pair_loop_extend h hcc _ _ hnv
+  refine ⟨?_, hint, hold⟩
+  intro g hg
+  obtain ⟨_, hbb, hion, hev, hel⟩ := single_group_phases_extend h g hg
+  unfold stage1
+  rw [hnv g hg, buriedOf_extend h _ _ hnv g hg, hev, hel, hems g hg, hems g hg, hbb, hion]
+end
+
+/-- not vacuous: any system whose parameters have no cut-off above `R` is a far extension of the empty system -/
+example (p : SP ℝ) (env : Env ℝ) (atoms : Tab AtomT) (groups : Tab (GroupT ℝ)) (R : ℝ) (hR : 0 ≤ R)
+    (h1 : p.desolvCut2 ≤ R * R) (h2 : p.buriedCut2 ≤ R * R) (h3 : p.cc2sq ≤ R * R) (h4 : p.ep.bbd1 ≤ R)
+    (h5 : ∀ ty r, p.bbNH ty = some r → r.2.2 ≤ R) (h6 : ∀ ty r, p.bbCO ty = some r → r.2.2 ≤ R)
+    (h7 : ∀ h, (groups.get h).iaAcid ≠ [] ∧ (groups.get h).iaBase ≠ []) :
+    FarExtension p env env ⟨0, atoms.get⟩ atoms ⟨0, groups.get⟩ groups R := by
+  constructor <;> first | exact hR | exact h1 | exact h2 | exact h3 | exact h4 | exact h5 | exact h6 | (intros; omega) | (intros; simp_all) | skip
+  all_goals first | exact Nat.zero_le _ | (intro h _; exact h7 h) | skip
+
 end Propka.Scoring
